@@ -59,6 +59,17 @@ func checkPairWant(scen string, in In, want int) *mc.Violation {
 			return nil // rendering is ambiguous (C03's business); compare what was meant via struct only
 		}
 		got = gen.Sign(version.Compare(pa, pb))
+	case "parse-edit":
+		// both values come from ONE parsed text and get their parts assigned afterwards, as a caller that fills a parsed
+		// template does: only the exported parts say what a Version is
+		pa, ea := version.Parse("7:7.7-7")
+		pb, eb := version.Parse("7:7.7-7")
+		if ea != nil || eb != nil {
+			return nil
+		}
+		pa.Epoch, pa.Version, pa.Revision = a.Epoch, a.Version, a.Revision
+		pb.Epoch, pb.Version, pb.Revision = b.Epoch, b.Version, b.Revision
+		got = gen.Sign(version.Compare(pa, pb))
 	case "less":
 		s := version.Slice{a, b}
 		l01, l10 := s.Less(0, 1), s.Less(1, 0)
@@ -274,6 +285,17 @@ func Run(r *mc.Run) {
 	}
 	partPairs(r, "digit-tokens", toks, nil, map[string]interface{}{"tokens": "0 00 1 9 09 10 99999999999999999999 100000000000000000000 a ~ + .", "max_tokens": 3, "strings": len(toks)})
 
+	// parts longer than a machine word has bits: identical for 63 / 64 / 65 / 127 / 128 / 129 / 255 / 256 bytes, then every kind
+	// of deciding difference
+	var beyond []string
+	filler := strings.Repeat("0.0~git20230512.1a+b", 20)
+	for _, n := range []int{63, 64, 65, 127, 128, 129, 255, 256} {
+		for _, t := range []string{"", "1", "9", "10", "1.9", "1.10", "a", "z", "~", "+", ".", "0", "00", "a1", "1a"} {
+			beyond = append(beyond, filler[:n]+t)
+		}
+	}
+	partPairs(r, "beyond-64-bytes", beyond, nil, map[string]interface{}{"shape": "a common prefix of 63..256 bytes followed by every kind of deciding difference", "strings": len(beyond)})
+
 	lr := gen.LongRunStrings()
 	partPairs(r, "long-runs", lr, nil, map[string]interface{}{"shape": "letter and digit runs of 7..17 characters continued by every class of character, cut short and continued differently, differing at every position class", "strings": len(lr)})
 
@@ -329,7 +351,7 @@ func Run(r *mc.Run) {
 		}
 		full = f2
 	}
-	for _, via := range []string{"struct", "parse", "less"} {
+	for _, via := range []string{"struct", "parse", "less", "parse-edit"} {
 		via := via
 		r.Scenario("full-versions-"+via, map[string]interface{}{"epochs": "0 1 2 10 2^31 2^32 2^63-1 2^63 2^63+1 2^64-1", "upstream": "all |s|<=2 over 01a~+.-:", "revisions": revs, "versions": len(full)},
 			len(full), func(i int, st *mc.Stats) bool {
